@@ -145,6 +145,8 @@ typedef struct vfault_s {
   /* selector plan (schedule-independent site name): the sel_ord-th (1-based) call of kind sel_kind on a
    * file whose base name contains sel_name fails once with err; sel_seen counts the matches so far */
   int sel_kind, sel_ord, sel_seen;
+  long sel_short;        /* >= 0 (with sel_kind read/write): that call transfers only sel_short bytes and NO error follows
+                            (a legal short transfer, not a failure); -1: the call fails with err */
   char sel_name[16];
 } vfault_t;
 
